@@ -380,7 +380,17 @@ class Interp:
             return Opaque(name)
         return self.native(fn, args, kwargs)
 
+    def _callable_for_native(self, v):
+        """An interpreted function handed to native code (list.sort(key=...), map, functools.reduce ...) becomes a
+        Python callable that runs it in this interpreter."""
+        if isinstance(v, Closure):
+            return lambda *a, **k: self.call(v, list(a), k)
+        return v
+
     def native(self, fn, args, kwargs):
+        if any(isinstance(a, Closure) for a in args) or any(isinstance(a, Closure) for a in kwargs.values()):
+            args = [self._callable_for_native(a) for a in args]
+            kwargs = {k: self._callable_for_native(a) for k, a in kwargs.items()}
         try:
             return fn(*args, **kwargs)
         except (PathEnd, Infeasible, Undecided, EngineError, PyRaise, _Return, _Break, _Continue):
